@@ -231,6 +231,10 @@ type verifInner struct {
 	pos   int
 	errAt int
 	stops int
+	// cancel (if set) is called while row number cancelAfter is being handed over: the request is cancelled
+	// after the datastore's own context check and before the caller sees the row
+	cancelAfter int
+	cancel      context.CancelFunc
 }
 
 func (s *verifInner) Head(ctx context.Context) (*openfgav1.Tuple, error) {
@@ -249,6 +253,9 @@ func (s *verifInner) Head(ctx context.Context) (*openfgav1.Tuple, error) {
 func (s *verifInner) Next(ctx context.Context) (*openfgav1.Tuple, error) {
 	t, err := s.Head(ctx)
 	if err == nil {
+		if s.cancel != nil && s.pos == s.cancelAfter {
+			s.cancel()
+		}
 		s.pos++
 	}
 	return t, err
@@ -350,6 +357,11 @@ func verifLifeCycle(v2 bool) {
 		ds = NewCachedDatastore(dsCtx, rd, cache, maxSize, time.Hour, &singleflight.Group{}, wg)
 	}
 
+	if vt.ParamInt("inside", 0) == 1 {
+		// the request is cancelled INSIDE a datastore read (row k already consumed from the datastore iterator)
+		inner.cancelAfter = vt.Choose("cancel-inside-read", n+1) // == n: never
+		inner.cancel = reqCancel
+	}
 	it, err := verifQuery(reqCtx, ds, api)
 	vt.Assert(err == nil && rd.reads == 1, "first query did not reach the datastore")
 	var started time.Time
